@@ -60,6 +60,7 @@ def snapshot(impl):
         'ev_stopped': [i for i, h in enumerate(ev.all) if h.stopped],
         'ev_suspend': bool(ev.suspend_all),
         'files': sorted(impl.files.files.keys()), 'stick': bool(impl.stick.is_on),
+        'def_seg': impl.all_memory.segment,
     }
     # what view() gives for the pointers below var_start (program code, FIELD buffers)
     foreign = {}
@@ -114,7 +115,7 @@ def coq_state(d):
         zlit(d['err_num']), zlit(d['err_pos']), coq_opt(d['stop_pos']), zlit(d['data_pos']),
         coq_bool(d['run_mode']), coq_bool(d['tron']), zlit(d['seed']),
         core.zl(d['ev_enabled']), core.zl(d['ev_gosub']), core.zl(d['ev_stopped']), coq_bool(d['ev_suspend']),
-        core.zl(d['files']), coq_bool(d['stick']),
+        core.zl(d['files']), coq_bool(d['stick']), zlit(d['def_seg']),
     ]
     return '(mkState %s)' % ' '.join(f)
 
@@ -149,7 +150,7 @@ def enc_state(names, d, foreign):
     out += [len(d['functions']), d['gosub'], d['for'], d['while'], opt(d['on_error']), int(d['err_handle']),
             int(d['err_resume']), d['err_num'], d['err_pos'], opt(d['stop_pos']), d['data_pos'],
             int(d['run_mode']), int(d['tron']), d['seed'], len(d['ev_enabled']), len(d['ev_gosub']),
-            len(d['ev_stopped']), int(d['ev_suspend']), int(d['stick'])]
+            len(d['ev_stopped']), int(d['ev_suspend']), int(d['stick']), d['def_seg']]
     out += [len(d['files'])] + d['files']
     sv = {bytes(n): v for n, v in d['sc_vars']}
     for n in names:
@@ -279,6 +280,8 @@ def gen_build(rng, b, opts):
     if rng.random() < 0.3:
         b.add(rng.choice(['ON TIMER(60) GOSUB 9500:TIMER ON', 'ON KEY(2) GOSUB 9500:KEY(2) ON',
                           'KEY(3) ON:KEY(3) STOP', 'PEN ON', 'STRIG ON', 'ON PEN GOSUB 9500:PEN ON']))
+    if rng.random() < 0.25:
+        b.add('DEF SEG=%d' % rng.choice([0, 64, 4096, 47104, 65535]))
     if rng.random() < 0.3:
         b.add('OPEN "O",2,"OUT.TXT"')
     field = rng.random() < 0.2
